@@ -2,6 +2,8 @@ package cqueue
 
 import (
 	"sync/atomic"
+
+	"github.com/aperturerobotics/util/verifhook"
 )
 
 // atomicLIFONode represents a single element in the LIFO.
@@ -25,6 +27,7 @@ func (q *AtomicLIFO[T]) Push(value T) {
 
 		// Set the next of the new atomicLIFONode to the current top.
 		newNode.next = oldTop
+		verifhook.Point("yield-push", q)
 
 		// Try to set the new atomicLIFONode as the new top.
 		if q.top.CompareAndSwap(oldTop, newNode) {
@@ -46,6 +49,7 @@ func (q *AtomicLIFO[T]) Pop() T {
 
 		// Read the next atomicLIFONode after the top.
 		next := oldTop.next
+		verifhook.Point("yield-pop", q)
 
 		// Try to set the next atomicLIFONode as the new top.
 		if q.top.CompareAndSwap(oldTop, next) {
